@@ -44,7 +44,7 @@ def trickle_history(rng, n):
 class C18(C06):
     ID = "C18"
     MODULE = "AwProofs.Props.C18"
-    THEOREMS = []
+    THEOREMS = ["AwProofs.C18.age_flush", "AwProofs.C18.age_flush_includes_write", "AwProofs.C18.age_flush_insertMany_rows", "AwProofs.C18.age_flush_insertMany_upsert", "AwProofs.C18.at_risk_bounded", "AwProofs.C18.pending_young"]
     LEVEL_TEXT = "Lean 4 theorems on the commit machine with the clock as an input: a write whose conditional commit runs more than 10 s after the last commit ends durable; every pending write was issued within 10 s after the last commit"
     LEVEL_NOTE = "trusts: Lean kernel; the clock is datetime.now() as read by the store (replaced by a controllable clock in the check); SQLite commit durability"
     TECHNIQUE = "Lean 4 invariant proof over the commit machine with clock input + differential correspondence with a fake clock"
